@@ -43,7 +43,7 @@ def run(ctx):
     for name, w in SCRIPTS:
         if not ctx.want(name):
             continue
-        sim = ctx.tlc("damage", "Damage", "SIM.cfg", simulate=(1 if q else 3), depth=4000, workers=1 if q else 4, files=files,
+        sim = ctx.tlc("damage", "Damage", "SIM.cfg", simulate=(1 if q else 2), depth=4000, workers=1 if q else 2, files=files,
                       constants={"ScriptName": '"%s"' % name, "W": w}, timeout=(300 if q else 3000))
         ctx.account(sim)
         ctx.log("SIM %s: %d databases" % (name, len(sim.emitted)))
